@@ -707,7 +707,7 @@ fn mutate_tree(rng: &mut Rng, root: &mut Node) -> &'static str {
         }
         7 => {
             let i = rng.below(kids.len() as u64 + 1) as usize;
-            kids.insert(i, Node::Raw(rng.pick(&[&b"<?pi?>"[..], b"<?xml version=\"1.0\"?>", b"<?p a > b?>", b"<??>"]).to_vec()));
+            kids.insert(i, Node::Raw(rng.pick(&[&b"<?pi?>"[..], b"<?xml version=\"1.0\"?>", b"<?p a > b?>", b"<??>", b"<?XML?>", b"<?Xml a?>", b"<?1a b?>", b"<?a!b?>", b"<? a?>", b"<?xml-stylesheet href=\"x\"?>", b"<?xmlx?>", b"<?a:b.c-d_e\tf?>", b"<?\xc3\xa9?>"]).to_vec()));
             "ins-pi"
         }
         8 => {
